@@ -16,7 +16,9 @@ import PgProofs.EvoPermP
 import PgProofs.EvoOrderPerm
 import PgProofs.EvoPmxPerm
 import PgProofs.EvoCyclePerm
+import PgProofs.EvoCycleTotal
 import PgProofs.EvoLaws
+import PgProofs.EvoNestP
 import PgProofs.EvoFuel
 import PgProofs.EvoDetPrims
 import PgModel.EvoSched
@@ -245,6 +247,12 @@ map, and cycles that are assigned never overlap). -/
 theorem C14_cycle_children_are_permutations (vx vy : List Nat) (hn : vx.Nodup) (hp : vy.Perm vx)
     (st : St) (c0 c1 : List Nat) (st' : St) (h : permuteCycle vx vy st = .ok ((c0, c1), st')) :
     c0.Perm vx ∧ c1.Perm vx := permuteCycle_perm hn hp st c0 c1 st' h
+
+/-- … and the Cycle crossover is total on such parents: every cycle closes within `size` steps
+(pigeonhole on the injective cycle map) and every position gets a side, so it never raises KeyError;
+with well-formed draws it always returns two arrangements of the items. -/
+theorem C14_cycle_total (vx vy : List Nat) (hn : vx.Nodup) (hp : vy.Perm vx) (st : St) :
+    permuteCycle vx vy st ≠ .error .key := permuteCycle_total hn hp st
 
 /-! ## Numeric recombinators `Average` / `WeightedAverage` (exact rationals) -/
 
@@ -519,6 +527,25 @@ theorem C14_law_with_prob (e : OpExpr) (p : Pop) (st : St) (out : Pop) (st' : St
       ∃ r s1, nextRandom st = .ok (r, s1) ∧ eval e p s1 = .ok (out, st')) :=
   ⟨fun limit h => with_prob_zero e limit p st out st' h, with_prob_one e p st out st'⟩
 
+/-- `x - y` (and `~x = Identity() - x`) works on object identities: exactly the objects `y` returned
+are dropped — an individual with an equal DNA value but another identity stays — and
+`|x - y| = |x| - |{d ∈ x : d is one of y's objects}|`. -/
+theorem C14_law_difference (a b : OpExpr) (p : Pop) (st : St) (out : Pop) (st' : St)
+    (h : eval (.diff a b) p st = .ok (out, st')) :
+    ∃ x y s1, eval b p st = .ok (y, s1) ∧ eval a p s1 = .ok (x, st') ∧
+      out = x.filter (fun d => !hasUid d.uid y) ∧
+      out.length + (x.filter (fun d => hasUid d.uid y)).length = x.length ∧
+      ∀ d ∈ x, (d ∈ out ↔ hasUid d.uid y = false) := difference_by_identity a b p st out st' h
+
+theorem C14_law_inversion (a : OpExpr) : eval (.inversion a) = eval (.diff .identity a) :=
+  inversion_is_difference a
+
+/-- two individuals with the same DNA value: `~First(1)` keeps the second one. -/
+example : ∃ out st', eval (.inversion (.leaf (selFirst (.count 1))))
+    [{ uid := 0, dna := f21Dna, fit := some 1 }, { uid := 1, dna := f21Dna, fit := some 3 }]
+    { oracle := [], nextUid := 2 } = .ok (out, st') ∧ out.map (·.uid) = [1] :=
+  ⟨_, _, rfl, rfl⟩
+
 /-- `x.until_change(1)` is `x`. -/
 theorem C14_law_until_one (e : OpExpr) : eval (.untilChange e 0) = eval e := until_one_attempt e
 
@@ -530,6 +557,44 @@ theorem C14_sched_pointwise (a b : Sched) (c : Int) (s : Nat) :
   refine ⟨rfl, rfl, ?_⟩
   intro x y hx hy
   simp [Sched.eval, hx, hy]
+
+/-! ## Nested populations: `.for_each(op)` and `.flatten(max_level)` -/
+
+/-- `flatten` (any `max_level`, any nesting) returns exactly the individuals it was given, in order;
+so does the grouping of a population into lists of `k`. -/
+theorem C14_law_flatten_items (m : Option Nat) (fuel level k : Nat) (hk : 0 < k) (xs : List Nest) :
+    itemsAll (flattenList m fuel level xs) = itemsAll xs ∧
+    itemsAll (chunk k xs.length xs) = itemsAll xs :=
+  ⟨items_flattenList m fuel level xs, items_chunk k hk xs.length xs (Nat.le_refl _)⟩
+
+/-- a pipeline of stages (ordinary operations, grouping, `.for_each(op)`, `.flatten`) keeps every
+element-wise invariant of the individuals that its operations keep — validity, alignment, membership. -/
+theorem C14_algebra_nested (P : Ind → Prop) (S : Nat → Prop) :
+    ∀ (stages : List NStage),
+      (∀ stg ∈ stages, ∀ e, (stg = .flat e ∨ stg = .forEach e) → ∀ op ∈ leaves e, Preserves P S op) →
+      ∀ xs st out st', (∀ x ∈ itemsAll xs, P x) → S st.nextUid →
+        evalStages stages xs st = .ok (out, st') → (∀ y ∈ itemsAll out, P y) ∧ S st'.nextUid := by
+  intro stages
+  induction stages with
+  | nil =>
+    intro _ xs st out st' hp hs h
+    simp only [evalStages] at h
+    rw [pure_ok] at h
+    obtain ⟨rfl, rfl⟩ := h
+    exact ⟨hp, hs⟩
+  | cons stg rest ih =>
+    intro hl xs st out st' hp hs h
+    simp only [evalStages] at h
+    rw [bind_ok] at h
+    obtain ⟨ys, s1, h1, h2⟩ := h
+    obtain ⟨hy, hs1⟩ := evalStage_preserves stg
+      (fun e he => eval_preserves e (hl stg List.mem_cons_self e he)) xs st ys s1 hp hs h1
+    exact ih (fun s' hs' => hl s' (List.mem_cons_of_mem _ hs')) ys s1 out st' hy hs1 h2
+
+/-- `x.for_each(lambda d: [d, [d]]).flatten()` on a flat population: every individual twice. -/
+example : itemsAll (flattenList none 5 0 ((ofPop [{ uid := 0, dna := f21Dna, fit := none }]).map
+    (fun n => Nest.list [n, .list [n]]))) = [{ uid := 0, dna := f21Dna, fit := none }, { uid := 0, dna := f21Dna, fit := none }] := by
+  rw [items_flattenList]; simp [ofPop, itemsAll, Nest.items]
 
 /-! ## Fuel adequacy: the bounded recursions of the model never stop for lack of fuel -/
 
